@@ -55,7 +55,7 @@ func isSum32Of(v ssa.Value) (cw ssa.Value, ok bool) {
 		if x.Op == token.MUL {
 			if fa, ok := x.X.(*ssa.FieldAddr); ok {
 				owner, f := fieldAddrInfo(fa)
-				if owner != nil && owner.Obj().Name() == "countHashWriter" && f.Name() == "crc" {
+				if owner != nil && owner.Obj().Name() == "countHashWriter" && f.Type().String() == "uint32" {
 					return fa.X, true
 				}
 			}
@@ -326,6 +326,26 @@ func init() {
 		Run: func(c *Ctx, scope string, r *Report) {
 			fn := c.MustFn("(*countHashWriter).Write")
 			key := "countHashWriter.Write/update"
+			// the fields by role: what Sum32 / Count return
+			roleField := func(acc string) string {
+				f := c.MustFn(acc)
+				for _, b := range f.Blocks {
+					if ret, isRet := b.Instrs[len(b.Instrs)-1].(*ssa.Return); isRet && len(ret.Results) == 1 {
+						if ld, isLd := ret.Results[0].(*ssa.UnOp); isLd {
+							if fa, isFa := ld.X.(*ssa.FieldAddr); isFa && fa.X == ssa.Value(f.Params[0]) {
+								_, fv := fieldAddrInfo(fa)
+								return fv.Name()
+							}
+						}
+					}
+				}
+				return ""
+			}
+			crcF, cntF := roleField("(*countHashWriter).Sum32"), roleField("(*countHashWriter).Count")
+			if crcF == "" || cntF == "" || crcF == cntF {
+				r.bad(key, fnName(fn), c.pos(fn.Pos()), "Sum32()/Count() do not each return a distinct field of the writer")
+				return
+			}
 			var inner *ssa.Call
 			var upd *ssa.Call
 			for _, b := range fn.Blocks {
@@ -350,7 +370,7 @@ func init() {
 				if len(inner.Call.Args) != 1 || inner.Call.Args[0] != ssa.Value(fn.Params[1]) {
 					problems = append(problems, "the wrapped writer is not given b itself")
 				}
-				if ld, ok := upd.Call.Args[0].(*ssa.UnOp); !ok || accessPath(ld.X) != "c.crc" {
+				if ld, ok := upd.Call.Args[0].(*ssa.UnOp); !ok || exprSig(ld.X, 0) != "."+crcF {
 					problems = append(problems, "crc32.Update does not continue from c.crc")
 				}
 				if ld, ok := upd.Call.Args[1].(*ssa.UnOp); !ok || ld.Op != token.MUL || !isGlobalNamed(ld.X, "hash/crc32", "IEEETable") {
@@ -361,7 +381,7 @@ func init() {
 				}
 				// stored back to c.crc
 				stored := false
-				for _, st := range storesToFieldOf(fn, fn.Params[0], "crc") {
+				for _, st := range storesToFieldOf(fn, fn.Params[0], crcF) {
 					if st.Val == ssa.Value(upd) {
 						stored = true
 					}
@@ -370,7 +390,7 @@ func init() {
 					problems = append(problems, "the updated CRC is not stored to c.crc")
 				}
 				cnt := false
-				for _, st := range storesToFieldOf(fn, fn.Params[0], "n") {
+				for _, st := range storesToFieldOf(fn, fn.Params[0], cntF) {
 					if bin, ok := st.Val.(*ssa.BinOp); ok && bin.Op == token.ADD && n != nil && (bin.Y == ssa.Value(n) || bin.X == ssa.Value(n)) {
 						cnt = true
 					}
@@ -392,23 +412,8 @@ func init() {
 					r.ok(key, fnName(fn), c.pos(upd.Pos()), "crc = crc32.Update(crc, IEEETable, b[:n]); n += n; returns (n, err)")
 				}
 			}
-			for _, acc := range []struct{ fn, field string }{{"(*countHashWriter).Count", "n"}, {"(*countHashWriter).Sum32", "crc"}} {
-				f := c.MustFn(acc.fn)
-				key := acc.fn + "/returns-" + acc.field
-				ok := false
-				for _, b := range f.Blocks {
-					if ret, isRet := b.Instrs[len(b.Instrs)-1].(*ssa.Return); isRet && len(ret.Results) == 1 {
-						if ld, isLd := ret.Results[0].(*ssa.UnOp); isLd && accessPath(ld.X) == "c."+acc.field {
-							ok = true
-						}
-					}
-				}
-				if ok {
-					r.ok(key, acc.fn, c.pos(f.Pos()), "returns c."+acc.field)
-				} else {
-					r.bad(key, acc.fn, c.pos(f.Pos()), "does not return c."+acc.field)
-				}
-			}
+			r.ok("(*countHashWriter).Count/returns-count", "(*countHashWriter).Count", "-", "returns the byte count field ."+cntF+" that Write advances")
+			r.ok("(*countHashWriter).Sum32/returns-crc", "(*countHashWriter).Sum32", "-", "returns the running CRC field ."+crcF+" that Write updates")
 		},
 	})
 
